@@ -999,7 +999,8 @@ func (in *inliner) fileEdits(f *ast.File, fname string, src []byte) []textEdit {
 			refuse(why)
 			return true
 		}
-		txt, results, why := in.expand(c, call, recvX)
+		tail := in.isTail(c, call, s0, parents)
+		txt, results, why := in.expand(c, call, recvX, tail)
 		if why != "" {
 			refuse(why)
 			return true
@@ -1017,6 +1018,17 @@ func (in *inliner) fileEdits(f *ast.File, fname string, src []byte) []textEdit {
 			}
 		}
 		taken = append(taken, [2]token.Pos{call.Pos(), call.End()})
+		if tail {
+			// `return h(x)`: the statement becomes the callee's body, whose returns now return from the caller
+			taken[len(taken)-1] = [2]token.Pos{s0.Pos(), s0.End()}
+			edits = append(edits, textEdit{off: in.offset(s0.Pos()), end: in.offset(s0.End()), text: txt + in.lineDirective(s0.End())})
+			callerName := "?"
+			if fd := in.enclosingDecl(call.Pos()); fd != nil {
+				callerName = declName(fd)
+			}
+			in.res.Inlined = append(in.res.Inlined, fmt.Sprintf("%s.%s into %s (%s:%d, tail)", Rel(in.pk.PkgPath), c.name, callerName, filepath.Base(where.Filename), where.Line))
+			return true
+		}
 		hostOff := in.offset(host.Pos())
 		pre := txt + "\n" + in.lineDirective(host.Pos())
 		if wrap {
@@ -1045,6 +1057,62 @@ func (in *inliner) fileEdits(f *ast.File, fname string, src []byte) []textEdit {
 	return edits
 }
 
+// isTail: the statement is `return h(...)`, h has unnamed results whose types are identical to those of the function
+// the statement returns from — then h's own return statements can stand in the caller unchanged.
+func (in *inliner) isTail(c *calleeInfo, call *ast.CallExpr, s0 ast.Stmt, parents map[ast.Node]ast.Node) bool {
+	ret, ok := s0.(*ast.ReturnStmt)
+	if !ok || len(ret.Results) != 1 || ret.Results[0] != ast.Expr(call) {
+		return false
+	}
+	if _, inList := parents[s0].(*ast.BlockStmt); !inList {
+		if _, inCase := parents[s0].(*ast.CaseClause); !inCase {
+			return false
+		}
+	}
+	if c.typ.Results != nil {
+		for _, f := range c.typ.Results.List {
+			if len(f.Names) > 0 {
+				return false
+			}
+		}
+	}
+	info := in.pk.TypesInfo
+	var calleeSig *types.Signature
+	switch o := c.obj.(type) {
+	case *types.Func:
+		calleeSig, _ = o.Type().(*types.Signature)
+	case *types.Var:
+		calleeSig, _ = o.Type().Underlying().(*types.Signature)
+	}
+	if calleeSig == nil {
+		return false
+	}
+	var outer *types.Signature
+	for n := parents[s0]; n != nil; n = parents[n] {
+		switch x := n.(type) {
+		case *ast.FuncLit:
+			outer, _ = info.TypeOf(x).(*types.Signature)
+		case *ast.FuncDecl:
+			if o := info.Defs[x.Name]; o != nil {
+				outer, _ = o.Type().(*types.Signature)
+			}
+		}
+		if outer != nil {
+			break
+		}
+	}
+	if outer == nil || outer.Results().Len() != calleeSig.Results().Len() {
+		return false
+	}
+	for i := 0; i < outer.Results().Len(); i++ {
+		if !types.Identical(outer.Results().At(i).Type(), calleeSig.Results().At(i).Type()) {
+			return false
+		}
+	}
+	// a return inside a nested literal of the callee is not the callee's: nothing to adapt; labels are renamed as usual
+	return true
+}
+
 func isVariadic(ft *ast.FuncType) bool {
 	if ft.Params == nil || len(ft.Params.List) == 0 {
 		return false
@@ -1054,7 +1122,7 @@ func isVariadic(ft *ast.FuncType) bool {
 }
 
 // expand produces the inlined text of one call and the names that stand for its results.
-func (in *inliner) expand(c *calleeInfo, call *ast.CallExpr, recvX ast.Expr) (string, []string, string) {
+func (in *inliner) expand(c *calleeInfo, call *ast.CallExpr, recvX ast.Expr, tail bool) (string, []string, string) {
 	*in.counter++
 	pfx := fmt.Sprintf("inl%d_", *in.counter)
 	info := in.pk.TypesInfo
@@ -1166,7 +1234,17 @@ func (in *inliner) expand(c *calleeInfo, call *ast.CallExpr, recvX ast.Expr) (st
 		}
 	}
 	var rnames []string
+	if tail {
+		sb.Reset()
+		sb.WriteString("{\n")
+		for i, p := range params {
+			fmt.Fprintf(&sb, "var %sa%d %s = %s\n", pfx, i, p.typ, args[i])
+		}
+	}
 	for i, r := range rlist {
+		if tail {
+			break
+		}
 		rn := fmt.Sprintf("%sr%d", pfx, i)
 		rnames = append(rnames, rn)
 		fmt.Fprintf(&sb, "var %s %s\n", rn, r.typ)
@@ -1193,6 +1271,9 @@ func (in *inliner) expand(c *calleeInfo, call *ast.CallExpr, recvX ast.Expr) (st
 	walkNoLit(c.body, func(n ast.Node) {
 		switch x := n.(type) {
 		case *ast.ReturnStmt:
+			if tail {
+				return // the callee's return is the caller's
+			}
 			nReturns++
 			var t string
 			switch {
@@ -1256,6 +1337,9 @@ func (in *inliner) expand(c *calleeInfo, call *ast.CallExpr, recvX ast.Expr) (st
 	}
 	sb.WriteString(body)
 	sb.WriteString("\n}\n")
+	if tail {
+		sb.WriteString("}\n")
+	}
 	if len(rnames) > 0 {
 		blanks := strings.TrimSuffix(strings.Repeat("_, ", len(rnames)), ", ")
 		fmt.Fprintf(&sb, "%s = %s\n", blanks, strings.Join(rnames, ", "))
